@@ -947,4 +947,32 @@ def dceL : List LStmt → List Nat → List LStmt × List Nat
     if d1.1.isEmpty && d2.1.isEmpty && fas'.isEmpty then ((dceL r live).1, d2.2)
     else (.ife c d1.1 d2.1 fas' :: (dceL r live).1, c.vars ++ d2.2)
 
+/-! ## CCP's boolean shortcut for an if/else (`conditional_constant_propagation.rs:302-315`)
+
+`if c { } else { } with r = (1, 0)` becomes `r := c`, with `(0, 1)` it becomes `r := c ^ 1` — only when
+BOTH branches are empty and there is exactly one final assignment. -/
+
+inductive IfShort where
+  | bindCond      -- `value_cx.checked_bind(name, condition)`
+  | xorCond       -- `let name = condition ^ 1`
+  | keep
+  deriving Repr, DecidableEq
+
+/-- the decision, with the two emptiness conjuncts selectable (both `true` = the code) -/
+def ifShortcutWith (needS1Empty needS2Empty : Bool) (s1Empty s2Empty : Bool) (fas : List (Operand × Operand)) : IfShort :=
+  if (!needS1Empty || s1Empty) && (!needS2Empty || s2Empty) && fas.length == 1 then
+    match fas with
+    | [(.lit 1, .lit 0)] => .bindCond
+    | [(.lit 0, .lit 1)] => .xorCond
+    | _ => .keep
+  else .keep
+
+def ifShortcut (s1Empty s2Empty : Bool) (fas : List (Operand × Operand)) : IfShort :=
+  ifShortcutWith true true s1Empty s2Empty fas
+
+/-- does the `IfElse` statement disappear from the output of CCP (non-constant condition)? Either by the
+shortcut, or because both branches are empty and every final assignment has equal sides (bound away). -/
+def ccpIfGone (s1Empty s2Empty : Bool) (fas : List (Operand × Operand)) : Bool :=
+  ifShortcut s1Empty s2Empty fas != .keep || (s1Empty && s2Empty && fas.all fun fa => fa.1 == fa.2)
+
 end SamVerif.Opt
